@@ -104,7 +104,12 @@ func (f *Font) WidthsMapPDF() map[string]float64 {
 // TODO(voss): remove in favour of FontBBoxPDF
 func (f *Font) FontBBox() (bbox rect.Rect) {
 	first := true
-	for _, glyph := range f.Glyphs {
+	// visit the glyphs in a fixed order: which of two equal coordinates
+	// (+0 and -0) ends up in the union depends on the order
+	names := maps.Keys(f.Glyphs)
+	sort.Strings(names)
+	for _, name := range names {
+		glyph := f.Glyphs[name]
 		thisBBox := glyph.BBox()
 		if thisBBox.IsZero() {
 			continue
@@ -123,7 +128,9 @@ func (f *Font) FontBBox() (bbox rect.Rect) {
 // This is the smallest rectangle enclosing all individual glyphs bounding boxes.
 func (f *Font) FontBBoxPDF() (fontBBox rect.Rect) {
 	first := true
-	for glyphName := range f.Glyphs {
+	names := maps.Keys(f.Glyphs)
+	sort.Strings(names)
+	for _, glyphName := range names {
 		glyphBBox := f.GlyphBBoxPDF(glyphName)
 		if glyphBBox.IsZero() {
 			continue
